@@ -257,7 +257,8 @@ impl Coll for KeyListC {
         if op.name == "export" {
             // consuming: the history ends here for the list
             let l = self.0.take().expect("list already consumed");
-            return ints(&l.into_ordered_vec(a[0] as i32));
+            let v = l.into_ordered_vec(a[0] as i32);
+            return format!("{} cap={}", ints(&v), v.capacity());
         }
         let l = self.0.as_mut().expect("list already consumed");
         match op.name.as_str() {
